@@ -266,6 +266,17 @@ func C14(tier string) int {
 	// ---- (3) multi-valued / unknown 'type' ----
 	names := []string{"Note", "Person", "Emoji", "Frobnicate", "x:Unknown"}
 	known := map[string]string{"Note": "ActivityStreams/Note", "Person": "ActivityStreams/Person", "Emoji": "Toot/Emoji"}
+	if o.Types["Toot/Emoji"] == nil {
+		// extension runs load ActivityStreams + the extension only: use one of its types instead
+		delete(known, "Emoji")
+		for _, k := range keys {
+			if o.Types[k].Vocab != "ActivityStreams" && !o.Types[k].Typeless {
+				names[2] = o.Types[k].Name
+				known[names[2]] = k
+				break
+			}
+		}
+	}
 	var arrays [][]string
 	for _, a := range names {
 		arrays = append(arrays, []string{a})
@@ -276,7 +287,8 @@ func C14(tier string) int {
 			}
 		}
 	}
-	cbSets := [][]string{{}, {"ActivityStreams/Note"}, {"ActivityStreams/Person"}, {"Toot/Emoji"}, {"ActivityStreams/Person", "ActivityStreams/Note"}, {"Toot/Emoji", "ActivityStreams/Note", "ActivityStreams/Person"}}
+	third := known[names[2]]
+	cbSets := [][]string{{}, {"ActivityStreams/Note"}, {"ActivityStreams/Person"}, {third}, {"ActivityStreams/Person", "ActivityStreams/Note"}, {third, "ActivityStreams/Note", "ActivityStreams/Person"}}
 	for _, arr := range arrays {
 		own := ""
 		for _, n := range arr {
